@@ -133,7 +133,7 @@ Proof.
   - inv H. apply fold_shape. intros; apply update_one_shape.
   - unfold do_allocrs in H. repeat break_hyp H; inv H; try apply step_shape_refl.
     split; cbn; [|auto]. intros q Hq. apply has_aput. auto.
-  - unfold do_commit in H. repeat break_hyp H; inv H; try apply step_shape_refl.
+  - unfold do_commit, do_commit_unchecked in H. repeat break_hyp H; inv H; try apply step_shape_refl.
     apply same_parts_blobs_shape; [reflexivity|]. cbn. intros id Hh.
     apply fold_aput_has in Hh. destruct Hh as [Hh|Hh]; [exact Hh|].
     eapply commit_loop_keys; eauto. intros k Hk. exfalso. apply Hk. reflexivity.
@@ -242,7 +242,7 @@ Proof.
   - unfold do_allocrs in H. repeat break_hyp H; inv H; auto.
     unfold parts_wf. cbn. apply Forall_aput; auto. cbn.
     apply first_part_In in Heqo. unfold parts_wf in W. rewrite Forall_forall in W. apply (W _ Heqo).
-  - unfold do_commit in H. repeat break_hyp H; inv H; auto.
+  - unfold do_commit, do_commit_unchecked in H. repeat break_hyp H; inv H; auto.
   - unfold do_rshosts in H. repeat break_hyp H; inv H; auto.
   - unfold do_updatesc in H. repeat break_hyp H; inv H; auto. unfold parts_wf. erewrite put_blob_parts; eauto.
   - inv H; auto.
@@ -285,7 +285,7 @@ Proof.
   - unfold do_change. repeat break_goal; try discriminate.
     exfalso. specialize (S _ eq_refl). apply nth_error_None in Heqo0. lia.
   - unfold do_allocrs. repeat break_goal; discriminate.
-  - unfold do_commit. repeat break_goal; try discriminate.
+  - unfold do_commit, do_commit_unchecked. repeat break_goal; try discriminate.
     exfalso. eapply commit_loop_no_crash; eauto.
   - unfold do_rshosts. repeat break_goal; discriminate.
   - unfold do_updatesc. rewrite S. cbn [negb andb]. repeat break_goal; try discriminate.
